@@ -77,6 +77,9 @@ def a_histories(z):
     # consumer that hands over gradually) gets them - on the connection they were sent on
     A['abandon-live'] = dict(steps=[('raw', F(1, b'one')), ('at', 0.5), ('raw', F(9, b'late-ping') + F(1, b'late text')), ('at', 1.0),
                                     ('raw', F(8, refws.close_payload(1000, 'old'))), ('await_close',), ('eof',)], abandon=5)
+    # ... abandoned before any of it has arrived: every read of the older loop happens while the next connection is in use
+    A['abandon-live-early'] = dict(steps=[('at', 0.5), ('raw', F(1, b'old-1') + F(2, b'old-2') + F(9, b'old-ping') + F(1, b'old-3')), ('at', 1.0),
+                                          ('raw', F(1, b'old-4') + F(8, refws.close_payload(1000, 'old'))), ('await_close',), ('eof',)], abandon=3)
     # the application keeps using the object between two connections (persist() hands it BackOff events to do so):
     # close() while there is no connection, sends that fail - none of it may leak into the next attempt
     A['connect-fail-then-app-close'] = dict(gai=True, steps=[], after=[['close']])
@@ -190,7 +193,7 @@ def cases(tier, seed, i, n):
                 for bn in B:
                     for at in (-1, 0, 1, 2, 3, 5):
                         yield dict(z=z, a=an, b=bn, via='connect', stale_at=at)
-                    if an in ('abandon-live', 'closing-abandoned', 'abandon@3', 'z-context-abandon'):
+                    if an in ('abandon-live', 'abandon-live-early', 'closing-abandoned', 'abandon@3', 'z-context-abandon'):
                         # ... or it is not finalised at all but still ITERATED (by the thread that owns it) while
                         # the next connection is made and used
                         for at in (-1, 0, 1, 2, 3):
@@ -434,6 +437,17 @@ def _run_pair(case, acc, z, A, B, chain, hb, seg):
         rb, wb = run_one(ra.ws, hb, z, seg, stale=(ra.gen, wa, case['stale_at'], case.get('stale_mode', 'close')))
         obs, kb = observe_b(rb, wb, z)
         acc.count2('oracle', 'stale_iterator_pairs')
+        if case.get('stale_mode') == 'step' and rb.stale_stepped and 'policy' not in A[an]:
+            # what the older loop yielded meanwhile is what it yields when nobody reconnects: it stays on its own
+            # connection, and its own connection stays its own (receive state included)
+            rfull, _wfull = run_one(None, A[an], z, seg)
+            cont = [H.norm(e) for e in rfull.events][len(ra.events):]
+            acc.count2('oracle', 'older_loop_continuations_compared')
+            if list(rb.stale_stepped) != cont[:len(rb.stale_stepped)]:
+                acc.violation('next-connection-disturbs-the-previous-one-still-iterated',
+                              'C17: A=%s B=%s stale_at=%s' % (an, case['b'], case['stale_at']), case,
+                              dict(older_loop_yielded=repr(rb.stale_stepped)[:600], alone_it_yields=repr(cont[:len(rb.stale_stepped)])[:600]))
+                return
         if rb.stale_finalised and case.get('stale_mode') == 'step':
             acc.count2('oracle', 'stale_iterator_stepped_during_next_connection')
             acc.count2('oracle', 'stale_iterator_events_during_next_connection', len(rb.stale_stepped))
